@@ -212,6 +212,44 @@ def run(prog: Program, col: Collector, tier: str, refs: Optional[Refs] = None, c
     # adjoints in the (logaddexp, add) semiring accumulate with logaddexp from the zero -inf and divide with safesub (plates)
     from . import numerics
     numerics.run(prog, col, refs, cat, rule_log="R11.7", rule_safe="R11.8")
+
+    # ---------------------------------------------------------------- R11.9 Scatter kernels belong to the rule's op
+    col.rule("R11.9", "a Scatter rule fills the destination with the unit of ITS op and uses an op-specific accumulating kernel only under a test on the op", floor=1)
+    n = 0
+    for r in cat.registrations:
+        f = r.target
+        if f is None or not r.pattern or isinstance(f.node, ast.Lambda) or refs.resolve(r.pattern[0]) != "funsor.terms.Scatter" or not r.registry.startswith("funsor.interpretations."):
+            continue
+        tc = cat.term_classes.get("funsor.terms.Scatter")
+        if tc is None or len(f.positional) != len(tc.fields) or "op" not in tc.fields:
+            continue
+        opn = f.positional[tc.fields.index("op")]
+        for c in walk_no_nested(f.node):
+            if not isinstance(c, ast.Call):
+                continue
+            o = cat.resolve_op(f.module, c.func) if isinstance(c.func, (ast.Name, ast.Attribute)) else None
+            if o is None:
+                continue
+            # the destination is pre-filled with UNITS[<the rule's op>]
+            if o.name == "new_full" and len(c.args) >= 3:
+                n += 1
+                fill = c.args[2]
+                good = isinstance(fill, ast.Subscript) and (refs.resolve(fill.value) or "").endswith("UNITS") and norm(fill.slice) == opn
+                col.check(good, f"{f.fq}::{norm(c)[:60]}", f"the destination starts as the unit of `{opn}` (positions nothing is scattered to hold the semiring zero)",
+                          f"the destination is filled with `{norm(fill)}`, not UNITS[{opn}]", f.loc(c))
+            # an accumulating kernel named after one op (scatter_add) is that op's kernel only
+            if o.name.startswith("scatter_") and o.name != "scatter":
+                n += 1
+                which = o.name.split("_", 1)[1]
+                guards = [a for a in f.module.ancestors(c) if isinstance(a, (ast.If, ast.IfExp)) and f.module.enclosing_function(a) is f.node]
+                tested = any(isinstance(x, ast.Compare) and any(isinstance(y, ast.Name) and y.id == opn for y in ast.walk(x))
+                             and any((cat.resolve_op(f.module, y) is not None and cat.resolve_op(f.module, y).name == which) for y in ast.walk(x) if isinstance(y, (ast.Name, ast.Attribute)))
+                             for g in guards for x in ast.walk(g.test))
+                col.check(tested, f"{f.fq}::{norm(c)[:60]}", f"`{o.var}` is used under a test that `{opn}` is `{which}`",
+                          f"`{o.var}` accumulates with `{which}` but the rule is selected for every op and does not test `{opn}`: under another semiring (logaddexp: destination "
+                          "-inf, -inf + x = -inf) the scattered adjoint is lost", f.loc(c))
+    if n == 0:
+        raise AnalysisError("no Scatter rule with a destination fill found (anchor: eager_scatter_tensor)")
     return col
 
 
